@@ -4,19 +4,23 @@ import (
 	"bytes"
 	"fmt"
 	"os"
-	"runtime/debug"
+	"runtime/pprof"
 	"strconv"
 
 	"github.com/coregx/coregex"
+	"github.com/coregx/coregex/meta"
 )
 
 func main() {
-	mb, _ := strconv.Atoi(os.Args[3])
-	debug.SetMaxStack(mb << 20)
 	n, _ := strconv.Atoi(os.Args[2])
 	re := coregex.MustCompile(os.Args[1])
-	h := bytes.Repeat([]byte("a"), n)
-	done := make(chan bool)
-	go func() { fmt.Println(re.Match(h)); done <- true }()
-	<-done
+	e, _ := meta.Compile(os.Args[1])
+	fmt.Println(e.Strategy())
+	h := bytes.Repeat([]byte(os.Args[3]), n/len(os.Args[3]))
+	f, _ := os.Create("/verif/work/cpu.prof")
+	pprof.StartCPUProfile(f)
+	for i := 0; i < 3; i++ {
+		re.FindIndex(h)
+	}
+	pprof.StopCPUProfile()
 }
